@@ -9,6 +9,7 @@
    the property's quantifier (principal edits, role create/delete, document writes / updates / deletes /
    conflicting revisions) does not include purge. *)
 From SG Require Import Base.Prelude C03.Access C03.AccessSpec C03.AccessProofs C03.AccessTheorems.
+From SG Require Import C03.Effective C03.EffectiveProofs C03.AccessX C03.AccessXLemmas C03.AccessXProofs C03.AccessXTheorems.
 Open Scope N_scope.
 
 (* after ANY history, the user's next load returns exactly: explicit channels + channels granted by winning live
@@ -159,6 +160,257 @@ Proof.
 Qed.
 Print Assumptions C03_load_race_linearizable.
 
+(* ======================================================================================================
+   Extended model (AccessX.v): WHO writes, WHEN a grant was made, and the access API of a loaded user.
+   [xwf (xinit def) ops]: every operation that allocates a sequence carries one larger than all sequences used
+   before (db.sequences is the one allocator of document and principal sequences; the correspondence harness checks
+   this on every history the real code ran).  The base component [xb] of an extended state evolves by the functions
+   of Access.v, so theorems (1)-(8) above hold of it.
+   ====================================================================================================== *)
+
+(* every extended operation is the corresponding operation of Access.v on the base component (a write with a user
+   context: a load of the writer, then the write if accepted, then the reload of the writer if its access changed) *)
+Theorem C03_extended_refines_base : forall xs o,
+  match base_op o with
+  | Some bo => xb (fst (xstep xs o)) = fst (step (xb xs) bo)
+  | None => match o with
+            | XPut (Some u) d parent r q b s =>
+              let st1 := fst (step (xb xs) (LoadUser u)) in
+              xb (fst (xstep xs o)) = st1 \/ xb (fst (xstep xs o)) = fst (step st1 (Put d parent r b)) \/
+              xb (fst (xstep xs o)) = fst (rebuild_user (fst (step st1 (Put d parent r b))) u)
+            | _ => xb (fst (xstep xs o)) = xb xs
+            end
+  end.
+Proof. exact xstep_refines_base. Qed.
+Print Assumptions C03_extended_refines_base.
+
+(* (1) WHO.  A write made with a user context that the sync function rejects (the body is rejected, or requireAdmin /
+   requireUser / requireRole / requireAccess fails for the writer -- in the written body or in the body of an older
+   leaf that the write would promote) changes no grant: no revision, no stored access map, no sequence; the only
+   effect is the lazy rebuild a load of the writer does, and every user's next load is what it was before.
+   (Resync is outside these operations: there a rejection DROPS the document's grants -- see C18.) *)
+Theorem C03_rejected_write_grants_nothing : forall def ops u d parent r q b s,
+  xwf (xinit def) ops = true ->
+  let xs := xrun (xinit def) ops in
+  snd (xstep xs (XPut (Some u) d parent r q b s)) = XStatus false ->
+  let xs' := fst (xstep xs (XPut (Some u) d parent r q b s)) in
+  xb xs' = fst (step (xb xs) (LoadUser u)) /\
+  docs (xb xs') = docs (xb xs) /\
+  xdacc xs' = xdacc xs /\ xdrol xs' = xdrol xs /\ xreq xs' = xreq xs /\ xclock xs' = xclock xs /\
+  same_truth (xb xs') (xb xs) /\
+  forall u', out_equiv (snd (step (xb xs') (LoadUser u'))) (snd (step (xb xs) (LoadUser u'))).
+Proof.
+  intros def ops u d parent r q b s W xs Hrej xs'. cbn [xstep fst snd] in *.
+  apply (rejected_write_grants_nothing xs u d parent r q b s (reachable_XInv def ops W)).
+  destruct (snd (x_put_as xs u d parent r q b s)); [discriminate | reflexivity].
+Qed.
+Print Assumptions C03_rejected_write_grants_nothing.
+
+(* ... and an accepted one met the requirement of its body, evaluated against the writer's SPECIFIED access: the
+   roles it holds by admin assignment or document grant, the channel names its load returns *)
+Theorem C03_accepted_write_met_requirement : forall def ops u d parent r q v s ur,
+  xwf (xinit def) ops = true ->
+  let xs := xrun (xinit def) ops in
+  users (xb xs) u = Some ur ->
+  snd (xstep xs (XPut (Some u) d parent r q (BLive v) s)) = XStatus true ->
+  match q with
+  | RNone => True
+  | RAdmin => False
+  | RUser l => In u l
+  | RRole l => exists x, In x l /\ roles_spec (docs (xb xs)) u (u_xro ur) x
+  | RAccess l => exists c, In c l /\ In c (effective_set (view_of (x_load_user xs u) u))
+  end.
+Proof.
+  intros def ops u d parent r q v s ur W xs Eu Hacc. cbn [xstep fst snd] in Hacc.
+  assert (Ha : snd (x_put_as xs u d parent r q (BLive v) s) = true) by (destruct (snd (x_put_as xs u d parent r q (BLive v) s)); [reflexivity | discriminate]).
+  pose proof (accepted_needs_requirement xs u d parent r q v s ur (reachable_XInv def ops W) Eu Ha) as H.
+  destruct q; try exact H. destruct H as [c [H1 H2]]. exists c. split; [exact H1|]. rewrite <- inherited_keys. exact H2.
+Qed.
+Print Assumptions C03_accepted_write_met_requirement.
+
+(* (2) TIME.  granted_since_is_first_grant_seq: after a load, the since value of every channel of the user is the
+   sequence of the EARLIEST currently-live grant source -- the admin grant (sequence of the UpdatePrincipal that added
+   the channel), every document whose stored access map (= the verdict on its winning revision) grants it, "!" at 1 --
+   and the user has a since value exactly for the channels of the access specification *)
+Theorem C03_granted_since_is_first_grant_seq : forall def ops u ur c,
+  xwf (xinit def) ops = true ->
+  let xs := fst (xstep (xrun (xinit def) ops) (XLoadUser u)) in
+  users (xb xs) u = Some ur ->
+  let g := ud_ch (xu xs u) in
+  let srcs := chan_sources xs (PU u) (g_x g) c in
+  (In c (keys (g_c g)) <-> own_spec (docs (xb xs)) (PU u) (u_xch ur) c) /\
+  (In c (keys (g_c g)) <-> srcs <> []) /\
+  (srcs <> [] -> In (since (g_c g) c) srcs /\ forall s, In s srcs -> since (g_c g) c <= s).
+Proof.
+  intros def ops u ur c W xs Eu. cbn [xstep fst] in *.
+  pose proof (x_load_user_XInv _ u (reachable_XInv def ops W)) as I.
+  exact (user_since_is_first_grant_seq _ u ur c I Eu (proj1 (loaded_user_valid _ u ur (reachable_XInv def ops W) Eu))).
+Qed.
+Print Assumptions C03_granted_since_is_first_grant_seq.
+
+(* the same for the roles of a user (RolesSince_) and for the channels of a role *)
+Theorem C03_role_since_is_first_grant_seq : forall def ops u ur r,
+  xwf (xinit def) ops = true ->
+  let xs := fst (xstep (xrun (xinit def) ops) (XLoadUser u)) in
+  users (xb xs) u = Some ur ->
+  let g := ud_ro (xu xs u) in
+  let srcs := role_sources xs u (g_x g) r in
+  (In r (keys (g_c g)) <-> roles_spec (docs (xb xs)) u (u_xro ur) r) /\
+  (In r (keys (g_c g)) <-> srcs <> []) /\
+  (srcs <> [] -> In (since (g_c g) r) srcs /\ forall s, In s srcs -> since (g_c g) r <= s).
+Proof.
+  intros def ops u ur r W xs Eu. cbn [xstep fst] in *.
+  pose proof (x_load_user_XInv _ u (reachable_XInv def ops W)) as I.
+  exact (user_roles_since_is_first_grant_seq _ u ur r I Eu (proj2 (loaded_user_valid _ u ur (reachable_XInv def ops W) Eu))).
+Qed.
+Print Assumptions C03_role_since_is_first_grant_seq.
+
+Theorem C03_role_channels_since_is_first_grant_seq : forall def ops r rr c,
+  xwf (xinit def) ops = true ->
+  let xs := xrun (xinit def) ops in
+  roles (xb xs) r = Some rr -> r_del rr = false -> r_ch rr <> None ->
+  let g := xr xs r in
+  let srcs := chan_sources xs (PR r) (g_x g) c in
+  (In c (keys (g_c g)) <-> own_spec (docs (xb xs)) (PR r) (r_xch rr) c) /\
+  (In c (keys (g_c g)) <-> srcs <> []) /\
+  (srcs <> [] -> In (since (g_c g) c) srcs /\ forall s, In s srcs -> since (g_c g) c <= s).
+Proof.
+  intros def ops r rr c W xs Er Hd Hv. exact (role_since_is_first_grant_seq xs r rr c (reachable_XInv def ops W) Er Hd Hv).
+Qed.
+Print Assumptions C03_role_channels_since_is_first_grant_seq.
+
+(* what the sequence of a DOCUMENT grant is (db/document.go updateAccess), for every admin write with sequence s:
+   the document grants c to k with a positive sequence exactly when its stored access map does; a grant the document
+   keeps making keeps its sequence; a grant it starts making gets s; other documents are untouched *)
+Theorem C03_doc_grant_seq_law : forall def ops d parent r q b s k c,
+  xwf (xinit def) (ops ++ [XPut None d parent r q b s]) = true ->
+  let xs := xrun (xinit def) ops in
+  let xs' := fst (xstep xs (XPut None d parent r q b s)) in
+  let old := since (tgrants pid_eqb (xdacc xs d) k) c in
+  let new := since (tgrants pid_eqb (xdacc xs' d) k) c in
+  let granted_before := In c (grants pid_eqb (d_acc (docs (xb xs) d)) k) in
+  let granted_after := In c (grants pid_eqb (d_acc (docs (xb xs') d)) k) in
+  (granted_before <-> old <> 0) /\ (granted_after <-> new <> 0) /\
+  (granted_after -> granted_before -> new = old) /\
+  (granted_after -> ~ granted_before -> new = s) /\
+  (forall d0, d0 <> d -> xdacc xs' d0 = xdacc xs d0).
+Proof.
+  intros def ops d parent r q b s k c W xs.
+  assert (W' : xwf (xinit def) ops = true /\ xclock xs < s) by (apply (xwf_snoc_seq ops _ _ s W); reflexivity).
+  destruct W' as [W1 W2]. cbn [xstep fst]. exact (doc_grant_seq_law xs d parent r q b s k c (reachable_XInv def ops W1) W2).
+Qed.
+Print Assumptions C03_doc_grant_seq_law.
+
+(* the ChannelHistory: when a load rebuilds an invalidated channel cache, every channel that was cached and is no
+   longer granted gets the CLOSED interval [since, channel_inval_seq] as its last history entry, where
+   0 < since < channel_inval_seq <= the last sequence used; the entries of every other channel are untouched; the
+   cache is valid afterwards *)
+Theorem C03_history_records_closed_interval : forall def ops u ur c dflt,
+  xwf (xinit def) ops = true ->
+  let xs := xrun (xinit def) ops in
+  users (xb xs) u = Some ur -> u_ch ur = None ->
+  let g := ud_ch (xu xs u) in
+  let g' := ud_ch (xu (fst (xstep xs (XLoadUser u))) u) in
+  (In c (keys (g_c g)) -> ~ In c (keys (g_c g')) ->
+     last (entries (g_hist g') c) dflt = (since (g_c g) c, g_inv g) /\
+     since (g_c g) c < g_inv g /\ g_inv g <= xclock xs /\ 0 < since (g_c g) c) /\
+  ((~ In c (keys (g_c g)) \/ In c (keys (g_c g'))) -> entries (g_hist g') c = entries (g_hist g) c) /\
+  g_inv g' = 0.
+Proof.
+  intros def ops u ur c dflt W xs Eu Hn. cbn [xstep fst].
+  exact (user_history_records_interval xs u ur c dflt (reachable_XInv def ops W) Eu Hn).
+Qed.
+Print Assumptions C03_history_records_closed_interval.
+
+(* since values move FORWARD across a revocation: if after ops1 channel c has no live grant source for key p (it is
+   revoked), then after ANY continuation ops2 every grant source of c for p -- hence the since value a load computes
+   from them -- is newer than every sequence used up to the revocation, in particular newer than the EndSeq of every
+   history entry recorded so far *)
+Theorem C03_since_moves_forward : forall def ops1 ops2 p c s,
+  xwf (xinit def) (ops1 ++ ops2) = true ->
+  srcs (xrun (xinit def) ops1) p c = [] ->
+  In s (srcs (xrun (xinit def) (ops1 ++ ops2)) p c) ->
+  xclock (xrun (xinit def) ops1) < s.
+Proof.
+  intros def ops1 ops2 p c s W H0 Hs.
+  destruct (xwf_app ops1 ops2 (xinit def) W) as [W1 [W2 E]]. rewrite E in Hs.
+  apply (sources_move_forward ops2 (xrun (xinit def) ops1) p c (xclock (xrun (xinit def) ops1)) (reachable_XInv def ops1 W1) W2 (N.le_refl _)); [|exact Hs].
+  intros s0 H. rewrite H0 in H. destruct H.
+Qed.
+Print Assumptions C03_since_moves_forward.
+
+(* (3) The access API of a loaded user object agrees with ONE effective set: the names of the user's own channels and
+   of the channels of every existing, not deleted role it holds ([effective_set (view_of xs u)]).  In every reachable
+   state: *)
+(* CanSeeCollectionChannel c  <->  c or "*" is in the effective set *)
+Theorem C03_can_see_iff_in_effective : forall def ops u c,
+  xwf (xinit def) ops = true ->
+  let v := view_of (xrun (xinit def) ops) u in
+  can_see v c = true <-> In c (effective_set v) \/ In star (effective_set v).
+Proof. intros def ops u c _ v. apply can_see_iff_in_effective. Qed.
+Print Assumptions C03_can_see_iff_in_effective.
+
+(* InheritedCollectionChannels has exactly the names of the effective set, each with the smallest of: the user's own
+   since value, and for every role max(the role's since value for the channel, the sequence the user got the role) *)
+Theorem C03_inherited_is_effective : forall def ops u c,
+  xwf (xinit def) ops = true ->
+  let v := view_of (xrun (xinit def) ops) u in
+  keys (inherited v) = effective_set v /\
+  since (inherited v) c =
+    fold_left (fun m r => nmin0 m (if since (vr_ch r) c =? 0 then 0 else N.max (since (vr_ch r) c) (vr_since r)))
+              (uv_roles v) (since (uv_own v) c).
+Proof.
+  intros def ops u c W v. split; [apply inherited_keys|]. rewrite inherited_since.
+  pose proof (view_of_pos _ u (reachable_XInv def ops W)) as [_ Pr]. fold v in Pr.
+  generalize (since (uv_own v) c). induction (uv_roles v) as [|r l IH]; intros m; cbn [fold_left]; [reflexivity|].
+  rewrite (since_raise (vr_since r) (vr_ch r) c (Pr r (or_introl eq_refl))). apply IH. intros r0 H0. apply Pr. right. exact H0.
+Qed.
+Print Assumptions C03_inherited_is_effective.
+
+(* FilterToAvailableCollectionChannels: a set without "*" is intersected with what can be seen (the rest is reported
+   as removed, every kept channel carries a positive sequence); a set with "*" yields the inherited channels *)
+Theorem C03_filter_is_intersection : forall def ops u cs,
+  xwf (xinit def) ops = true ->
+  let v := view_of (xrun (xinit def) ops) u in
+  (mem star cs = false ->
+     (forall c, In c (keys (fst (filter_available v cs))) <-> In c cs /\ can_see v c = true) /\
+     (forall c, In c (snd (filter_available v cs)) <-> In c cs /\ can_see v c = false) /\
+     (forall e, In e (fst (filter_available v cs)) -> snd e = can_see_since v (fst e) /\ 0 < snd e)) /\
+  (mem star cs = true -> filter_available v cs = (inherited v, [])).
+Proof. intros def ops u cs W v. apply filter_is_intersection. apply view_of_pos. exact (reachable_XInv def ops W). Qed.
+Print Assumptions C03_filter_is_intersection.
+
+(* expandCollectionWildCardChannel: a set that mentions "*" expands to the effective set; any other set is unchanged *)
+Theorem C03_wildcard_expands_to_effective : forall def ops u cs,
+  xwf (xinit def) ops = true ->
+  let v := view_of (xrun (xinit def) ops) u in
+  (mem star cs = true -> expand_wildcard v cs = effective_set v) /\
+  (mem star cs = false -> expand_wildcard v cs = cs).
+Proof. intros def ops u cs _ v. apply wildcard_expands_to_effective. Qed.
+Print Assumptions C03_wildcard_expands_to_effective.
+
+(* AuthorizeAnyCollectionChannel: for a non-empty set, authorized iff some channel of it can be seen (default and named
+   collections alike); for the EMPTY set (a document in no channel) in a named collection, iff "*" is in the effective
+   set.  In the DEFAULT collection the empty set is authorized iff "*" is among the user's OWN channels: a "*" held
+   through a role is ignored there (auth/role.go authorizeAnyChannel) -- the uniform law is refuted for the unchanged
+   code, see C03_Refuted.v (signature authorize-any-empty-set-ignores-role-star) *)
+Theorem C03_authorize_any_agrees_partial : forall def ops u cs,
+  xwf (xinit def) ops = true ->
+  let v := view_of (xrun (xinit def) ops) u in
+  (cs <> [] -> forall isdef, authorize_any isdef v cs = existsb (can_see v) cs) /\
+  (authorize_any false v [] = true <-> In star (effective_set v)) /\
+  (authorize_any true v [] = true <-> In star (keys (uv_own v))).
+Proof.
+  intros def ops u cs _ v. split; [intros H isdef; apply authorize_any_nonempty; exact H|].
+  split; [apply authorize_any_empty_named | apply authorize_any_empty_default].
+Qed.
+Print Assumptions C03_authorize_any_agrees_partial.
+Definition C03_authorize_any_agrees_full_statement : Prop := forall def ops u cs isdef,
+  xwf (xinit def) ops = true ->
+  let v := view_of (xrun (xinit def) ops) u in
+  authorize_any isdef v cs = true <->
+  match cs with [] => In star (effective_set v) | _ => exists c, In c cs /\ (In c (effective_set v) \/ In star (effective_set v)) end.
+
 (* non-vacuity: a history without purge in which a user created AFTER the granting document gets a channel
    directly and one through a granted role, and loses both when the document is tombstoned *)
 Example C03_nonvacuous :
@@ -168,3 +420,18 @@ Example C03_nonvacuous :
   snd (step (run init ops) (LoadUser 0)) = OUser (Some ([1; 0; 3; 2; 0], [0])) /\
   snd (step (run init (ops ++ [Put 0 (Some (1, 5)) (2, 5) BTomb])) (LoadUser 0)) = OUser (Some ([0], [])).
 Proof. cbv zeta. split; [right; reflexivity|]. split; vm_compute; reflexivity. Qed.
+
+(* non-vacuity of the extended theorems: a well-formed history in which user 0 (holding channel 1 by admin grant) has a
+   write rejected by requireAccess(2) and the same write accepted once a document grants it channel 2; the grant is
+   then revoked and made again: the since value moves from 4 to 7 and the history records [4, 6] *)
+Example C03_extended_nonvacuous :
+  let ops := [XSetUser 0 (Some [1]) None 1; XSetUser 1 None None 2;
+              XPut (Some 0) 0 None (1, 5) (RAccess [2]) (BLive (mkV [(PU 1, [3])] [])) 3;
+              XPut None 1 None (1, 6) RNone (BLive (mkV [(PU 0, [2])] [])) 4;
+              XPut (Some 0) 0 None (1, 5) (RAccess [2]) (BLive (mkV [(PU 1, [3])] [])) 5;
+              XPut None 1 (Some (1, 6)) (2, 6) RNone (BLive (mkV [] [])) 6; XLoadUser 0;
+              XPut None 1 (Some (2, 6)) (3, 6) RNone (BLive (mkV [(PU 0, [2])] [])) 7; XLoadUser 0] in
+  xwf (xinit true) ops = true /\
+  map (fun o => match o with XStatus b => b | _ => true end) (xouts (xinit true) ops) = [true; true; false; true; true; true; true; true; true] /\
+  (let g := ud_ch (xu (xrun (xinit true) ops) 0) in since (g_c g) 2 = 7 /\ entries (g_hist g) 2 = [(4, 6)]).
+Proof. cbv zeta. split; [vm_compute; reflexivity|]. split; vm_compute; split; reflexivity. Qed.
